@@ -70,6 +70,17 @@ def run(ctx):
             if strip_custom(e2) != e1n:
                 ctx.violation("validation errors/paths differ when sub-schemas are wrapped", value=repr(v),
                               plain_errors=e1[:4], wrapped_errors=e2[:4], **info)
+            # the caller's own root path (validate(..., path=PathHolder("body"))) is used by a wrapped root as by a plain one
+            try:
+                from th import PathHolder
+                r1 = [(type(e).__name__, repr(e.path)) for e in validate(s, v, path=PathHolder("body")).get_errors()]
+                r2 = [(type(e).__name__, repr(e.path)) for e in validate(ws, v, path=PathHolder("body")).get_errors()]
+                ctx.count("named_root_path_pairs")
+                if sorted(r1) != sorted(r2):
+                    ctx.violation("error paths differ under a caller-supplied root path when sub-schemas are wrapped",
+                                  value=repr(v), plain_paths=r1[:4], wrapped_paths=r2[:4], **info)
+            except Exception as e:  # noqa: BLE001
+                ctx.violation("validate with a caller-supplied root path raised " + type(e).__name__, value=repr(v), **info)
             c = valcorr.ValCase(ws, v, "wrapped")
             valcorr.run_real(c)
             valcorr.prepare(c)
